@@ -316,6 +316,19 @@ func (t *Trace) Emit(v any) {
 	t.N++
 }
 
+// NewTraceFile wraps an already opened file (append mode for restartable drivers).
+func NewTraceFile(f *os.File) *Trace {
+	return &Trace{f: f, w: bufio.NewWriterSize(f, 1<<16)}
+}
+
+// Flush forces the buffered lines to disk (drivers that may crash the process).
+func (t *Trace) Flush() {
+	t.mu.Lock()
+	defer t.mu.Unlock()
+
+	t.w.Flush() //nolint:errcheck
+}
+
 func (t *Trace) Close() error {
 	t.mu.Lock()
 	defer t.mu.Unlock()
